@@ -549,3 +549,18 @@ func (a *Authority) RunEndorseCLI(extra cmd.CommandComponent, args []string) err
 	full := append([]string{"endorse"}, a.caFlags()...)
 	return a.runCLI(p, extra, append(full, args...))
 }
+
+// DecoratedView is View with the counting/fault decorators installed around CA, signer and key
+// manager (used by recording checks: every call is numbered by the plan while it is Active).
+func (a *Authority) DecoratedView() (*View, error) {
+	v, err := a.View()
+	if err != nil {
+		return nil, err
+	}
+	c, _ := keys.FromContext(v.Ctx)
+	c.Manager = &faultyManager{c.Manager, a.Plan, a}
+	c.Signer = &faultySigner{c.Signer, a.Plan}
+	c.CA = &faultyCA{c.CA, a.Plan, a}
+	v.CA, v.Signer = c.CA, c.Signer
+	return v, nil
+}
